@@ -46,6 +46,8 @@ _r_star_const_space = re.compile(       # matches "* const "
 _r_int_dotdotdot = re.compile(r"(\b(int|long|short|signed|unsigned|char)\s*)+"
                               r"\.\.\.")
 _r_float_dotdotdot = re.compile(r"\b(double|float)\s*\.\.\.")
+_char_escapes = {'a': 7, 'b': 8, 'f': 12, 'n': 10, 'r': 13, 't': 9, 'v': 11,
+                 '0': 0, '1': 1, '2': 2, '3': 3, '4': 4, '5': 5, '6': 6, '7': 7}
 
 def _get_parser():
     global _parser_cache
@@ -916,6 +918,8 @@ class Parser:
                 raise CDefError("invalid constant %r" % (s,))
             elif s[0] == "'" and s[-1] == "'" and (
                     len(s) == 3 or (len(s) == 4 and s[1] == "\\")):
+                if len(s) == 4 and s[2] in _char_escapes:
+                    return _char_escapes[s[2]]
                 return ord(s[-2])
             else:
                 raise CDefError("invalid constant %r" % (s,))
